@@ -7,6 +7,8 @@ mod c01;
 #[cfg(actix_net_verif)]
 mod c05;
 #[cfg(actix_net_verif)]
+mod c08;
+#[cfg(actix_net_verif)]
 mod engine;
 #[cfg(actix_net_verif)]
 mod monitor;
@@ -98,7 +100,7 @@ fn scenario_loop(
     for i in 0..enum_n + n {
         let r = rng.next_u64();
         let seed = if i < enum_n {
-            if args.thorough() {
+            if args.thorough() || enum_n >= enum_total {
                 i
             } else {
                 r % enum_total
@@ -334,6 +336,50 @@ fn main() {
                         c05::Outcome::Held => Verdict::Held,
                         c05::Outcome::Violated(f) => Verdict::Violated(f),
                         c05::Outcome::Inconclusive(w) => Verdict::Inconclusive(w),
+                    }
+                }
+            },
+        ),
+        "C08" => scenario_loop(
+            &args,
+            &mut rep,
+            72,
+            2400,
+            c08::REGRESSION,
+            |seed| {
+                let s = c08::Scn::from_seed(seed);
+                (s.shape(), s.to_json())
+            },
+            {
+                let mut seen = c08::Seen::default();
+                move |seed, fin: Option<&mut Report>| -> Verdict {
+                    if let Some(rep) = fin {
+                        rep.add("obs_faults_injected", seen.faults_injected);
+                        rep.add("obs_faults_detected", seen.faults_detected);
+                        rep.add("obs_reroutes_checked", seen.reroutes_checked);
+                        rep.add("obs_dropped_no_workers", seen.dropped_no_workers);
+                        rep.add("obs_replacements_adopted", seen.replacements_adopted);
+                        rep.add("obs_replacement_received_connection", seen.replacement_received_connection);
+                        rep.add("obs_guard_drops_with_notification", seen.late_notifications);
+                        rep.add("obs_notifications_for_removed_handle", seen.notifications_for_removed_handle);
+                        rep.add("obs_double_fault_scenarios", seen.double_faults);
+                        rep.add("obs_saturated_victims", seen.saturated_victims);
+                        rep.add("obs_single_worker_recoveries", seen.single_worker_recoveries);
+                        rep.add("obs_connections_lost_to_fault_info", seen.lost_to_fault);
+                        rep.add("obs_quiescent_points", seen.quiescent_points);
+                        rep.add("obs_stops_completed", seen.stops_completed);
+                        rep.add("obs_undetected_fault_scenarios", seen.undetected_fault_scenarios);
+                        rep.rule = "fault sequences on a real server, workers 1..3 x limit 1..3 x {Actix, Tokio}: victims (one, or two at once) idle / partially loaded / saturated; fault = panic in call, panic in poll_ready woken through its waker, readiness error whose re-creation fails; \
+                                    victim's connections closed before the fault / after it / after detection / never; replacement factory delay 0/300/500 ms; a failpoint delays the victim's availability notification by 0/150/400 ms (late notification relative to detection and replacement); \
+                                    a fixed regression corpus of 24 double-fault histories (saturated second victim, slow replacement, delayed notification) is always run first (quick samples it), thorough walks it completely. \
+                                    Oracles over the ordered hook log: the connection whose send discovered the fault is re-dispatched, or dropped only when no handle is left; no Dispatch to the dead index before the replacement's adoption; a replacement is started and adopted and receives a connection; no availability bit without a handle; \
+                                    accept_one iteration guard (spin), accept thread exits regularly, stop() completes, pending connections are served once the replacement is up. Distinct = distinct scenario shape.".into();
+                        return Verdict::Held;
+                    }
+                    match c08::run_scenario(&c08::Scn::from_seed(seed), &mut seen) {
+                        c08::Outcome::Held => Verdict::Held,
+                        c08::Outcome::Violated(f) => Verdict::Violated(f),
+                        c08::Outcome::Inconclusive(w) => Verdict::Inconclusive(w),
                     }
                 }
             },
